@@ -9,6 +9,7 @@ import (
 	"net"
 	"runtime"
 	"strings"
+	"sync"
 	"sync/atomic"
 	"time"
 
@@ -44,6 +45,62 @@ type HCase struct {
 	// Check14 arms the C14 oracle instead: the chain starts with server_id, and every reply that goes out,
 	// whatever the other plugins did to it, must carry this server's identifier (siaddr and option 54 / Server-ID)
 	Check14 bool `json:"check14,omitempty"`
+	// Burst: after the history, its datagrams are handled again all at once, each in its own
+	// goroutine as Serve does, Burst copies of each (every copy made to come from another client
+	// where the datagram is well-formed enough to say who the client is): C01 quantifies over
+	// histories and the server's handlers run concurrently
+	Burst int `json:"burst,omitempty"`
+}
+
+// GenHBurst draws histories under chains with a lease plugin, followed by a burst
+func GenHBurst(t *rapid.T) HCase {
+	c := genH(false, false, -1)(t)
+	name, args := "range", chainArgs4["range"][2]
+	if c.V6 {
+		name, args = "prefix", chainArgs6["prefix"][0]
+	}
+	has := false
+	for i := range c.Plugins {
+		if c.Plugins[i].Name == name {
+			has = true
+		}
+	}
+	if !has && rapid.IntRange(0, 3).Draw(t, "force-stateful") > 0 {
+		pos := rapid.IntRange(0, len(c.Plugins)).Draw(t, "stateful-pos")
+		c.Plugins = append(c.Plugins[:pos], append([]PluginSpec{{Name: name, Args: args}}, c.Plugins[pos:]...)...)
+	}
+	c.Burst = rapid.IntRange(2, 6).Draw(t, "burst")
+	return c
+}
+
+// otherClient returns a copy of the datagram that comes from client k, if the datagram is
+// well-formed enough to locate the client's identity (DHCPv4: chaddr; DHCPv6: the Client
+// Identifier of an unrelayed message); otherwise the datagram itself
+func otherClient(b []byte, v6 bool, k int) []byte {
+	c := append([]byte(nil), b...)
+	if !v6 {
+		if len(c) >= 240 && c[0] == 1 && c[2] >= 2 && c[2] <= 16 {
+			c[28+int(c[2])-1] ^= byte(k)
+			c[28+int(c[2])-2] ^= byte(k >> 8)
+		}
+		return c
+	}
+	if len(c) < 8 || c[0] == gen.M6RelayForw || c[0] == gen.M6RelayRepl {
+		return c
+	}
+	for off := 4; off+4 <= len(c); {
+		code, l := int(c[off])<<8|int(c[off+1]), int(c[off+2])<<8|int(c[off+3])
+		if off+4+l > len(c) {
+			break
+		}
+		if code == gen.O6ClientID && l >= 4 {
+			c[off+4+l-1] ^= byte(k)
+			c[off+4+l-2] ^= byte(k >> 8)
+			break
+		}
+		off += 4 + l
+	}
+	return c
 }
 
 func genChain(t *rapid.T, v6 bool) []PluginSpec {
@@ -435,6 +492,52 @@ func ExecH(c HCase) (res core.Result) {
 			relayed = true
 		}
 	}
+	burst := false
+	if c.Burst > 0 && !c.NilStop && !c.Verify && !c.Check14 && len(c.History) > 0 {
+		burst = true
+		var wg sync.WaitGroup
+		var mu sync.Mutex
+		var first *core.Violation
+		abort := make(chan struct{})
+		var once sync.Once
+		start := make(chan struct{})
+		for r := 0; r < c.Burst; r++ {
+			for i, d := range c.History {
+				b, _ := hex.DecodeString(d.Hex)
+				dd := Dgram{Hex: hex.EncodeToString(otherClient(b, c.V6, r*len(c.History)+i+1)), Src: d.Src}
+				wg.Add(1)
+				go func(dd Dgram, idx int) {
+					defer wg.Done()
+					<-start
+					if v := feed(dd, idx); v != nil && v.Signature != "skip:cpu-starved" {
+						mu.Lock()
+						if first == nil {
+							first = v
+						}
+						mu.Unlock()
+						once.Do(func() { close(abort) })
+					}
+				}(dd, i)
+			}
+		}
+		close(start)
+		if !core.WaitTimeout(&wg, abort, 60*time.Second) {
+			mu.Lock()
+			v := first
+			mu.Unlock()
+			if v == nil {
+				v = core.Violate("C01/wedged", "a burst of %d x %d datagrams handled concurrently did not finish within 60 s", c.Burst, len(c.History))
+			}
+			v.Message = fmt.Sprintf("burst (%d copies of the history at once, one goroutine per datagram): %s", c.Burst, v.Message)
+			res.Viol = v
+			return
+		}
+		if first != nil {
+			first.Message = fmt.Sprintf("burst (%d copies of the history at once, one goroutine per datagram): %s", c.Burst, first.Message)
+			res.Viol = first
+			return
+		}
+	}
 	// canary: a fresh, well-formed request must still be handled (no lock left behind)
 	before := reached.Load()
 	var canary Dgram
@@ -489,6 +592,9 @@ func ExecH(c HCase) (res core.Result) {
 	}
 	if before > 1 {
 		res.Classes = append(res.Classes, "several-reached-chain")
+	}
+	if burst {
+		res.Classes = append(res.Classes, "burst")
 	}
 	return
 }
